@@ -387,4 +387,4 @@ def run(ctx):
     ctx.count(states=stats["nodes"], transitions=stats["choices"])
     ctx.part("option-texts", scenarios=len(items), deviation_bound=bound, per_dimension_max=stats["per_dimension_max"], memo_seam_checked=len(small))
     ctx.extra["assumptions_list"] = ["name-lookup memo keyed by (name, size of the particle table) is behaviour-preserving (checked on the <=1-deviation scenarios)"]
-    ctx.extra["excluded"] = ["particle names outside the hand-written vocabulary table", "self-referential partial lines", "the amplitude 'fix' flag (inverted w.r.t. the AmpGen flag by upstream design)"]
+    ctx.extra["excluded"] = ["particle names outside the hand-written vocabulary table", "self-referential partial lines", "the amplitude fix attribute (not stated by the property; DESIGN 9.3)"]
